@@ -250,6 +250,31 @@ def previous_wraps(fn):
   return out
 
 
+def searched_position_minus_one(fn):
+  """`k = bisect.bisect_right(xs, v) - 1` (or bisect / bisect_left) is the position of the last element not after v - and -1 when v lies
+  before xs[0].  Used as an index, -1 is the *last* element.  OK when a condition on k (k < 0, k >= 0, k == -1) or on v against xs[0]
+  is in force where k is used as an index; BAD when k is used as a subscript with no such condition anywhere on the way."""
+  out = []
+  for st in U.walk_stmts(fn):
+    if not (isinstance(st, ast.Assign) and len(st.targets) == 1 and isinstance(st.targets[0], ast.Name) and isinstance(st.value, ast.BinOp) and isinstance(st.value.op, ast.Sub) and
+            U.const_value(st.value.right) == 1 and isinstance(st.value.left, ast.Call) and (dotted(st.value.left.func) or '').split('.')[-1] in ('bisect', 'bisect_right', 'bisect_left') and
+            len(st.value.left.args) >= 2):
+      continue
+    k = st.targets[0].id
+    xs, v = norm_text(st.value.left.args[0]), norm_text(st.value.left.args[1])
+    uses = [n for n in ast.walk(fn) if isinstance(n, ast.Subscript) and isinstance(n.slice, ast.Name) and n.slice.id == k and getattr(n, 'lineno', 0) >= st.lineno]
+    for n in uses:
+      gs = guards_at(fn, n)
+      lower = [t for t, _p in gs if (any(isinstance(x, ast.Name) and x.id == k for x in ast.walk(t)) and any(U.const_value(c) in (0, -1) for c in ast.walk(t) if isinstance(c, (ast.Constant, ast.UnaryOp)))) or
+               (_mentions(t, v) and ('%s[0]' % xs) in norm_text(t))]
+      what = '%s with %s == -1 (when %s lies before %s[0]) is the last element of %s' % (norm_text(n), k, v, xs, norm_text(n.value))
+      if lower:
+        out.append(Site('previous-wraps', n, OK, 'guarded by %s' % norm_text(lower[0])))
+      else:
+        out.append(Site('previous-wraps', n, BAD, '%s; %s = %s, and no condition on the way excludes a value before the first element' % (what, k, norm_text(st.value))))
+  return out
+
+
 def _return_kinds(mod, fnode, seen=None, depth=0):
   """Kinds of value a module-level function can return: subset of {'none', 'mod', 'num', 'other'}.
   'mod': an expression `x % N` (0 is in its range by construction)."""
@@ -619,6 +644,8 @@ def wrapper_defaults(fi):
 
 # --------------------------------------------------------------------------------------------------------- self examples
 SELF_EXAMPLES = [
+    ('previous-wraps', 'def f(pieces, splits, beat):\n  k = bisect.bisect_right(splits, beat.time) - 1\n  if k == len(splits) - 1:\n    return\n  pieces[k].append(beat)\n', BAD),
+    ('previous-wraps', 'def f(pieces, splits, beat):\n  k = bisect.bisect_right(splits, beat.time) - 1\n  if k < 0 or k == len(splits) - 1:\n    return\n  pieces[k].append(beat)\n', OK),
     ('case-folded-key', "KINDS = {'major': '', 'minMaj7': 'm(maj7)'}\ndef f(text):\n  kind = text.strip().lower()\n  if kind not in KINDS:\n    raise ValueError(kind)\n  return KINDS[kind]\n", BAD),
     ('case-folded-key', "KINDS = {'major': '', 'minor': 'm'}\ndef f(text):\n  kind = text.strip().lower()\n  return KINDS[kind]\n", OK),
     ('mergefrom-as-assignment', 'def f(piece, a, b):\n  piece.info.MergeFrom(Info(start=a, end=b))\n', BAD),
@@ -1190,7 +1217,7 @@ DETECT = {
     'shadowed-literal-branch': lambda fn, mod: shadowed_literal_branches(fn),
     'misaligned-index': lambda fn, mod: misaligned_indexes(fn),
     'neg-zero-slice': lambda fn, mod: neg_zero_slices(fn),
-    'previous-wraps': lambda fn, mod: previous_wraps(fn),
+    'previous-wraps': lambda fn, mod: previous_wraps(fn) + searched_position_minus_one(fn),
     'falsy-zero': falsy_zero,
     'narrowing-cast': lambda fn, mod: narrowing_casts(fn),
     'stale-sibling': lambda fn, mod: stale_siblings(fn),
